@@ -71,6 +71,13 @@ theorem eof_reported_le {d : Bytes} {a : Eof.Eof} (h : Eof.Eof.unpack d = .ok a)
   obtain ⟨fd, p, hp, _, _, _, hle, _⟩ := Eof.unpack_inv d a h
   rw [← prelude_declared hp]; exact hle
 
+/-- Finished: the decoded object reports at most the declared length (it recomputes its length from
+    the filestore responses and the last entity-ID TLV it kept) -/
+theorem finished_reported_le {d : Bytes} {a : Finished.Finished} (h : Finished.Finished.unpack d = .ok a) :
+    a.packetLen ≤ cfdpDeclaredLen d := by
+  obtain ⟨fd, p, hp, hle⟩ := Finished.unpack_reported_le d a h
+  rw [← prelude_declared hp]; exact hle
+
 /-! ## locality, per kind -/
 
 private theorem declLocal_of_local {α : Type} {c : Codec α} (hl : Local c)
@@ -201,7 +208,7 @@ theorem PduKind.declRestricts (k : PduKind) (d : Bytes) (r : PduDecoded) (h : k.
 /-- the decoded object reports exactly the declared length, for every kind except EOF (≤) and
     Finished (recomputed from the decoded TLVs; no claim) -/
 theorem PduKind.reported (k : PduKind) (d : Bytes) (r : PduDecoded) (h : k.decode d = .ok r) :
-    (k ≠ .eof → k ≠ .finished → r.len = cfdpDeclaredLen d) ∧ (k = .eof → r.len ≤ cfdpDeclaredLen d) := by
+    (k ≠ .eof → k ≠ .finished → r.len = cfdpDeclaredLen d) ∧ r.len ≤ cfdpDeclaredLen d := by
   have key : ∀ {α : Type} (dec : Bytes → Py α) (f : α → PduDecoded) (P : Nat → Prop),
       (∀ a, dec d = .ok a → P (f a).len) → (f <$> dec d) = .ok r → P r.len := by
     intro α dec f P hP hr
@@ -209,13 +216,19 @@ theorem PduKind.reported (k : PduKind) (d : Bytes) (r : PduDecoded) (h : k.decod
     | error e => rw [ha] at hr; cases hr
     | ok a => rw [ha] at hr; rw [← Except.ok.inj hr]; exact hP a ha
   cases k with
-  | ack => exact ⟨fun _ _ => key _ PduDecoded.ack (· = _) (fun a ha => ack_declared ha) h, fun hc => by cases hc⟩
-  | prompt => exact ⟨fun _ _ => key _ PduDecoded.prompt (· = _) (fun a ha => prompt_declared ha) h, fun hc => by cases hc⟩
-  | keepAlive => exact ⟨fun _ _ => key _ PduDecoded.keepAlive (· = _) (fun a ha => keepAlive_declared ha) h, fun hc => by cases hc⟩
-  | nak => exact ⟨fun _ _ => key _ PduDecoded.nak (· = _) (fun a ha => nak_declared ha) h, fun hc => by cases hc⟩
-  | fileData => exact ⟨fun _ _ => key _ PduDecoded.fileData (· = _) (fun a ha => fileData_declared ha) h, fun hc => by cases hc⟩
-  | metadata => exact ⟨fun _ _ => key _ PduDecoded.metadata (· = _) (fun a ha => metadata_declared ha) h, fun hc => by cases hc⟩
-  | eof => exact ⟨fun hc => absurd rfl hc, fun _ => key _ PduDecoded.eof (· ≤ _) (fun a ha => eof_reported_le ha) h⟩
-  | finished => exact ⟨fun _ hc => absurd rfl hc, fun hc => by cases hc⟩
+  | ack => exact ⟨fun _ _ => key _ PduDecoded.ack (· = _) (fun a ha => ack_declared ha) h,
+      key _ PduDecoded.ack (· ≤ _) (fun a ha => Nat.le_of_eq (ack_declared ha)) h⟩
+  | prompt => exact ⟨fun _ _ => key _ PduDecoded.prompt (· = _) (fun a ha => prompt_declared ha) h,
+      key _ PduDecoded.prompt (· ≤ _) (fun a ha => Nat.le_of_eq (prompt_declared ha)) h⟩
+  | keepAlive => exact ⟨fun _ _ => key _ PduDecoded.keepAlive (· = _) (fun a ha => keepAlive_declared ha) h,
+      key _ PduDecoded.keepAlive (· ≤ _) (fun a ha => Nat.le_of_eq (keepAlive_declared ha)) h⟩
+  | nak => exact ⟨fun _ _ => key _ PduDecoded.nak (· = _) (fun a ha => nak_declared ha) h,
+      key _ PduDecoded.nak (· ≤ _) (fun a ha => Nat.le_of_eq (nak_declared ha)) h⟩
+  | fileData => exact ⟨fun _ _ => key _ PduDecoded.fileData (· = _) (fun a ha => fileData_declared ha) h,
+      key _ PduDecoded.fileData (· ≤ _) (fun a ha => Nat.le_of_eq (fileData_declared ha)) h⟩
+  | metadata => exact ⟨fun _ _ => key _ PduDecoded.metadata (· = _) (fun a ha => metadata_declared ha) h,
+      key _ PduDecoded.metadata (· ≤ _) (fun a ha => Nat.le_of_eq (metadata_declared ha)) h⟩
+  | eof => exact ⟨fun hc => absurd rfl hc, key _ PduDecoded.eof (· ≤ _) (fun a ha => eof_reported_le ha) h⟩
+  | finished => exact ⟨fun _ hc => absurd rfl hc, key _ PduDecoded.finished (· ≤ _) (fun a ha => finished_reported_le ha) h⟩
 
 end SpVerif.Prefix
